@@ -897,6 +897,31 @@ mod sh {
             }
             dist.bump("cut.lzip");
             cmds.push(format!("mt_scan {}", hex(&s)));
+            // hostile member tables: the member_size field (trailer bytes 12..19) of one member - the
+            // last or an earlier one - set to a border value (0, below a header, off by one, the
+            // whole file, beyond the file, huge)
+            let members: Vec<Vec<u8>> = (0..1 + rng.below(4))
+                .map(|_| {
+                    let n = rng.below(60) as usize;
+                    lzip_member(&payload(rng, n))
+                })
+                .collect();
+            let j = rng.below(members.len() as u64) as usize;
+            let total: u64 = members.iter().map(|m| m.len() as u64).sum();
+            let own = members[j].len() as u64;
+            let upto: u64 = members[..=j].iter().map(|m| m.len() as u64).sum();
+            let v = *rng.pick(&[0u64, 0, 0, 1, 19, 20, 25, 26, own - 1, own + 1, upto, upto + 1, total, total + 1, 1 << 32, 1 << 63, u64::MAX]);
+            let mut s = Vec::new();
+            for (i, m) in members.iter().enumerate() {
+                let mut m = m.clone();
+                if i == j {
+                    let l = m.len();
+                    m[l - 8..].copy_from_slice(&v.to_le_bytes());
+                }
+                s.extend_from_slice(&m);
+            }
+            dist.bump(if v == 0 { "scan.member_size_zero" } else { "scan.member_size_border" });
+            cmds.push(format!("mt_scan {}", hex(&s)));
         }
         cmds
     }
